@@ -214,6 +214,8 @@ def b_structure(cl, mod, H, n, nlast=NMAX):
                'invalid flag, invalid atomic number or unavailable atomic factor: (0,0) and exactly one error', functions=[fn], timeout=40, check_premise=(n > 0))
     if n == nlast:
         cl.add('C13/F/qfail', ev, qerr, And(r.rv[0] == 0, r.rv[1] == 0, r.errset, r.sets_on_slot == 1, r.overwrites == 0), 'a failing scattering amplitude is propagated', functions=[fn])
+        r0 = ev.call(fn, args, errslot=False)
+        cl.add('C13/F/qfail-noslot', ev, qerr, And(r0.rv[0] == 0, r0.rv[1] == 0), 'error == NULL: a failing scattering amplitude is still noticed ((0,0) is returned, as with a slot)', functions=[fn])
         rn = ev.call(fn, [P.null()] + args[1:])
         cl.add('C13/F/null', ev, BoolVal(True), And(rn.rv[0] == 0, rn.rv[1] == 0, rn.errset, rn.sets_on_slot == 1), 'NULL crystal: error (also for (0,0,0))', functions=[fn])
         rec = []
